@@ -194,6 +194,19 @@ def scans(rng, tier):
             fam = rng.choice(["gmp_fscanf", "gmp_fscanf", "gmp_vfscanf"])
             yield "%s %s %s %s" % (fam, sbytes(esc(f)), sbytes(ty), sbytes(esc(inp)))
 
+def scan_long_fields(rng, tier):
+    """fields whose stored length crosses the growth steps of doscan.c's digit buffer (512, 1024, 1536 characters incl. the NUL):
+    the harness allocator has exact sizes and red zones, so a byte stored past the block or lost in the reallocation shows"""
+    for L in [510, 511, 512, 513, 514, 1023, 1024, 1025] + ([1535, 1536, 1537, 2048, 2049, 4096] if tier != "quick" else []):
+        d = "".join(rng.choice("0123456789") for _ in range(L - 1)); d = rng.choice("123456789") + d
+        hxs = "".join(rng.choice("0123456789abcdef") for _ in range(L - 1)); hxs = rng.choice("123456789abcdef") + hxs
+        for fam in ("gmp_sscanf", "gmp_fscanf"):
+            yield "%s %s %s %s" % (fam, sbytes("%Zd%n"), sbytes("zn"), sbytes(d))
+            yield "%s %s %s %s" % (fam, sbytes("%Zd%n"), sbytes("zn"), sbytes("-" + d[:-1]))
+            yield "%s %s %s %s" % (fam, sbytes("%Zx %Zd%n"), sbytes("zzn"), sbytes(hxs + " 77"))
+            yield "%s %s %s %s" % (fam, sbytes("%Qd%n"), sbytes("qn"), sbytes(d[: L - 3] + "/7"))
+            yield "%s %s %s %s" % (fam, sbytes("%Qd%n"), sbytes("qn"), sbytes("3/" + d[: L - 2]))
+
 def scan_positions(rng, tier):
     """well-formed fields damaged at every position (truncation, inserted or replaced character) and every
     width 1..len+1: the count returned, the value, %n and the stream position say how far the scanner went"""
@@ -264,6 +277,7 @@ def gen_ops(rng, tier, ctx=None):
     yield from roundtrip(rng, tier)
     yield from scans(rng, tier)
     yield from scan_positions(rng, tier)
+    yield from scan_long_fields(rng, tier)
     yield from fgrid(rng, tier)
 
 
